@@ -132,7 +132,7 @@ def scanner_model(ctx, texts, rnd) -> None:
     the line/column of its first character; the pinned block-comment loop (CHECKEOF=0) must be refuted.
     Conformance (diagnostic, R3): token streams / error positions of the real scanner vs the model."""
     from harness import scanmc
-    scanmc.design(ctx, 4 if ctx.quick else 5)
+    scanmc.design(ctx, 4 if ctx.quick else 6)
     scanmc.refute_pinned_comment_loop(ctx)
     sample = [t for t in texts if len(t) <= 60]
     rnd.shuffle(sample)
